@@ -132,7 +132,7 @@ PROPS["C07"] = {
     "lean_module": "LispModel.Props.C07",
     "engines": [{"name": "cancel", "quick": 2500, "thorough": 40000},
                 {"name": "cancelwall", "quick": 114, "thorough": 760}],
-    "technique": "Lean 4 theorems about the poll structure of the evaluator model (every loop iteration polls first) + poll-counting context correspondence",
+    "technique": "Lean 4 theorems about the poll structure of the evaluator model (every loop iteration polls first) + poll-counting context correspondence + regenerated facts about every blocking operation (Tie.Waits) + wall-clock programs under real contexts (harness oracle)",
     "level_text": "PARTIAL: the logic is proved in poll ticks (after the cancelling poll every evaluation step returns the timeout error at once, no effect "
                   "is appended, the number of further polls is bounded by the try nesting); the tie runs real EVAL under a context whose Done() closes at the "
                   "n-th poll and compares outcome, trace and poll count with the model. Wall-clock latency of the Go scheduler is not exhibited by the model.",
@@ -145,7 +145,7 @@ PROPS["C08"] = {
                 {"name": "tailconc", "quick": 1, "thorough": 1, "deterministic": True},
                 {"name": "afterdebug", "quick": 1, "thorough": 1, "deterministic": True},
                 {"name": "taillong", "quick": 1, "thorough": 1, "deterministic": True}],
-    "technique": "Lean 4 theorems about the EVAL-frame depth carried by the evaluator model + depth! marks compared with runtime.Callers frame counts",
+    "technique": "Lean 4 theorems about the EVAL-frame depth carried by the evaluator model + depth! marks compared with runtime.Callers frame counts + long loops (harness oracle)",
     "level_text": "PARTIAL: 'no additional host stack' is proved as 'no additional EVAL activation': every tail-position construct continues the loop at the same "
                   "depth; the tie demands equality of the model's depth with the number of lisp.EVAL frames counted on the real stack at every depth! mark.",
     "level_note": _EVAL_NOTE,
@@ -274,7 +274,7 @@ PROPS["C02"] = {
                 {"name": "meta", "quick": 3000, "thorough": 60000},
                 {"name": "keptargs", "quick": 1, "thorough": 1, "deterministic": True},
                 {"name": "heldargs", "quick": 2000, "thorough": 60000}],
-    "technique": "Lean 4 frame theorem over a Go slice/array heap model + regenerated append-site facts + differential correspondence on operation histories",
+    "technique": "Lean 4 frame theorem over a Go slice/array heap model + regenerated append-site and Apply-argument facts + differential correspondence on operation histories + harness-oracle sweep of every library builtin over held values (heldargs)",
     "level_text": "Kernel-checked: every collection builtin, modelled at the level of Go slices (backing array, offset, length, capacity, append in place "
                   "when capacity allows), refines its pure meaning and leaves every live value reading back unchanged (step_frame), hence histories of any "
                   "length and fan-out are immutable; the slice-level model is tied to the source by facts regenerated on every run (every append site in the "
